@@ -572,11 +572,11 @@ theorem c13_welltyped_full_false : ¬ c13_welltyped_full := by
       rw [he] at this; simpa using this
     rw [hti, this] at w; cases w
 
-/-- unused imports: `trim` / `lowercase` / `uppercase` write `import "strings"`, `ipv4` `net`, `refine` the core package,
-    and a `regex` rule without parameter `regexp` — no emitted expression uses them; the writer of round 4 also wrote
-    `net/url` for `url` -/
+/-- unused imports: `trim` / `lowercase` / `uppercase` write `import "strings"`, `ipv4` `net`, `refine` the core package
+    — no emitted expression uses them (rules outside docs/tags.md); the writer of round 4 also wrote `net/url` for `url`;
+    `regexp` is written exactly when a Regex call is (1af466f) -/
 theorem c13_unused_import_witnesses :
-    (["trim", "lowercase", "uppercase", "ipv4", "ipv6", "refine", "check", "regex"].all fun n =>
+    (["trim", "lowercase", "uppercase", "ipv4", "ipv6", "refine", "check"].all fun n =>
       match emitChain WF (.basic .string) (asc "C") [rule n] with
       | some c => !importsUsed WF [[rule n]] [c]
       | none => false) = true ∧
